@@ -88,6 +88,15 @@ def model_convert(srcs_cfgs):
     return out
 
 
+def model_bad(srcs_cfgs):
+    """the hypothesis `badModule` of C08.reject_at_any_depth, evaluated by the Lean model on each
+    program: (bad: bool, outcome: 'ok' | 'err')"""
+    out = []
+    for r in leandrv.run_batch(model_requests(srcs_cfgs)):
+        out.append((r.get("bad"), "ok" if "ok" in r else ("err" if "err" in r else "protocol-error")))
+    return out
+
+
 def analysable(src):
     try:
         ast.parse(src)
